@@ -13,6 +13,9 @@ because the spec judges the implementation's *observations*):
   impl != model  -> the theorems do not speak about this code (correspondence)
   spec != ok     -> the property fails on this input; every failing clause must be explained by a
                     `finding:` line of known-findings.txt, otherwise VIOLATION
+
+  Clauses of the spec verdict: aborted (a CheckIntegrity call returned an error: the run stopped there and
+  its transaction is rolled back), sound, complete, readonly, fixsound, flags, converge, entities, idempotent.
 """
 import re
 
@@ -21,7 +24,9 @@ from . import common
 MODULE = "StorageModel.Properties.C09"
 THEOREMS = ["code_shape_is_repaired", "check_readonly", "check_reports_unfixed", "check_complete", "check_sound_reports",
             "check_sound", "check_clean_iff", "fix_converges", "fix_idempotent", "fix_noop_on_consistent",
-            "fix_preserves_wf", "fix_mirrors", "universe_schema_ok", "empty_alias_clean", "one_transaction_fix_converges"]
+            "fix_preserves_wf", "fix_mirrors", "run_never_fails", "store_run_never_fails", "fix_run_repairs",
+            "universe_schema_ok", "empty_alias_clean", "one_transaction_fix_converges", "dup_and_missing_entry_converges",
+            "junk_at_missing_value_converges", "emptied_store_converges"]
 TABLE_OBLIGATIONS = ["code_shape_is_repaired (Generated/C09Quirks.lean, regenerated from boltz/link_collection.go and "
                      "boltz/indexes.go: IterateLinks is a read-only lookup, the unique-index entity loop skips an empty "
                      "value like nil, dangling links are removed after the link-cursor loop)"]
@@ -78,7 +83,13 @@ RULE = ("random histories (4-17 operations through Create/Update/DeleteById/SetL
         "collection pair) followed by 0-6 raw bbolt corruptions drawn from every supported class; one case in eight "
         "is run three times (separate transactions, one transaction things-then-owners, one transaction "
         "owners-then-things); plus a fixed 8-entity state (ids a1/a11 and b1/b11 in a prefix relation sharing every list) with every single corruption of a 46-entry catalogue and "
-        "sampled pairs (quick) / every subset of <= 3 corruptions (thorough). non-trivial = at least one corruption "
+        "sampled pairs (quick) / every subset of <= 3 corruptions (thorough); plus INTERACTING corruptions: for 13 shared "
+        "targets (a unique value of things.name / things.alias / owners.label, the set-index values r1 and r11, the fk "
+        "pairs owner / home / boss, a link pair, one entity, and the stores emptied or never used) every class of "
+        "corruption that can be aimed at the target, all pairs (both tiers; thorough also in the opposite order and "
+        "inside one transaction in both store orders) and all triples (thorough) / a seeded sample of them (quick); one "
+        "random history in three gets 2-3 corruptions aimed at one target chosen inside the state it produced. An "
+        "error returned by CheckIntegrity is part of the compared outcome (clause `aborted`). non-trivial = at least one corruption "
         "applied and at least one report in the check-only phase; distinct = (mode, sorted set of (class, index) "
         "pairs reported in phase 1, number of reports in phase 3)")
 
